@@ -52,9 +52,9 @@ Fixpoint seps_ok (l : list (list Z * list Z)) : Prop :=
 (* the optional `(error "...")` line printed for (get-model) on an unsat context *)
 Inductive error_line : list Z -> Prop :=
   | el_none : error_line []
-  | el_some : forall ws1 c ws2 msg ws3,
-      all_space ws1 -> sp_space c -> ~ In c_rpar msg -> all_space ws3 -> ws2 = c :: msg ->
-      error_line (c_lpar :: ws1 ++ s_error ++ ws2 ++ c_rpar :: ws3).
+  | el_some : forall ws1 c msg ws3,
+      all_space ws1 -> sp_space c -> ~ In c_rpar msg -> all_space ws3 ->
+      error_line (c_lpar :: ws1 ++ s_error ++ c :: msg ++ c_rpar :: ws3).
 
 (* unsat <ws> [error line] ( <ws> names ) <anything> *)
 Definition core_reply (ws0 err ws1 : list Z) (names : list (list Z * list Z)) (post : list Z) : list Z :=
